@@ -37,9 +37,11 @@ BASE = {
     "f2": [[0, 0], [0, 4], [3, 0], [3, 4], [8, 2], [9, 3], [20, 0]],
     "g2": [[-3, 1], [-0.5, 2.5], [0, 0], [1, -3], [2.5, 10], [10, 1]],
     "h2": [[0.1, 1 / 3], [0.7, 0.2], [1000.1, 5], [1000.3, 5.5], [3.3, 2.2]],
+    "j2": [[1e8, 3.0], [1e8 + 1, 3.5], [1e8 + 2, 2.5], [1e8 + 7, 3.0], [1e8 + 8, 4.0], [1e8 + 9.5, 3.5]],
+    "k1": [[2.0**20], [2.0**20 + 0.25], [2.0**20 + 0.5], [2.0**20 + 3], [2.0**20 + 3.5]],
     "i3": [[0, 0, 1], [1, 0, 1], [0, 2, 1], [8, 8, 1], [9, 8, 1], [8, 10, 1.5], [30, 0, 1]],
 }
-QUICK_SETS = ["a1", "b1", "d1", "e2", "f2", "h2"]
+QUICK_SETS = ["a1", "b1", "d1", "e2", "f2", "h2", "j2", "k1"]
 CAPS = {"quick": [1, 2, 3, 5], "thorough": [1, 2, 3, 4, 5, 8]}
 THRS = [None, 0.0, 1e-3, 0.1, 1.0, 1e9]
 
@@ -147,7 +149,12 @@ def run_case(case):
         prev_labels = st["labels"]
         traj.append(st["new"])
         crit.append(st["crit"])
-    scale = float(max(abs(v) for r in X for v in r)) ** 2 + 1.0
+    # magnitude of the intermediates the definition itself needs: coordinates (for centroids) and
+    # coordinate x spread (rounding of a centroid at offset |x| moves a squared distance by ~ eps*|x|*spread)
+    big = float(max(abs(v) for r in X for v in r)) + 1.0
+    spread = max(max(r[d] for r in X) - min(r[d] for r in X) for d in range(len(X[0]))) + 1.0
+    spread = max(spread, max(abs(v - w) for r in C0.tolist() for v, w in zip(r, X[0])) + 1.0)
+    scale = big * spread
     tags = dict(kind="dask" if is_dask else "numpy", init=init if isinstance(init, str) else "explicit")
 
     def valid(k):
@@ -162,7 +169,7 @@ def run_case(case):
         c.transitions += 1
         c.states += 1
         want_c = np.array(ok.fl(traj[k]))
-        c.close(m.centroids_, want_c, "centroids", f"centroids after {k} iterations", tags, scale=np.sqrt(scale))
+        c.close(m.centroids_, want_c, "centroids", f"centroids after {k} iterations", tags, scale=big)
         if k >= 1:
             c.close(
                 float(m.average_min_distance),
@@ -210,9 +217,17 @@ def run_case(case):
             m = _fit(case, X, C0 if not isinstance(init, str) else init, cap, thr)
             c.transitions += 1
             c.close(m.centroids_, np.array(ok.fl(traj[stop])), "stop_centroids",
-                    f"cap={cap} thr={thr}: model must be the one after {stop} iterations", tags, scale=np.sqrt(scale))
+                    f"cap={cap} thr={thr}: model must be the one after {stop} iterations", tags, scale=big)
             c.close(float(m.average_min_distance), float(crit[stop]), "stop_criterion",
                     f"cap={cap} thr={thr}: criterion must be that of iteration {stop}", tags, scale=scale)
+            if thr in (0.1, 1e-3) and not c.viol:
+                # history: fitting the same machine object again must give the same model (no state carried over)
+                m.fit(_mk(X, case["kind"]))
+                c.transitions += 1
+                c.close(m.centroids_, np.array(ok.fl(traj[stop])), "refit_centroids",
+                        f"cap={cap} thr={thr}: second fit of the same object must again stop after {stop} iterations", tags, scale=big)
+                c.close(float(m.average_min_distance), float(crit[stop]), "refit_criterion",
+                        f"cap={cap} thr={thr}: criterion after a second fit of the same object", tags, scale=scale)
     c.traces = c.transitions
     nontrivial = (changed or fired) and bad_from is None
     sig = "%s|%d|%s|%s" % (case["data"], case["K"], init if isinstance(init, str) else repr(init), case["kind"])
